@@ -339,6 +339,140 @@ pub fn c31_case(src: &mut Src, obs: &mut Obs) -> CaseResult {
     if got_u.is_some() {
         return Err(Failure::new(format!("a property marked uncached is in the cache; {}", describe())));
     }
+    // ---- property change streams: "report the latest value" ---------------------------------------
+    // One or two streams for A (and what they yield is looked at only when everything is at rest, so
+    // that coalescing — documented — never decides the verdict): a stream created while the cache
+    // holds a value yields first, and reports that value; after further signals that touch A every
+    // stream yields, and what it reports (from the cache, or fetched anew after an invalidation) is
+    // the service's latest value. Yields nobody asked for are allowed, with the latest value too.
+    let nstreams = 1 + src.below(2);
+    let poll_first_before_second = src.bool();
+    let more: Vec<PEv> = (0..src.below(4)).map(|k| gen_ev(src, 80 + k as u32)).collect();
+    let mut streams: Vec<zbus::proxy::PropertyStream<'static, u32>> = vec![];
+    let mut stream_notes: Vec<String> = vec![];
+    let touches_a = |ev: &PEv| match ev {
+        PEv::Changed("A", _) | PEv::Invalidated("A") | PEv::Mixed(_) => true,
+        PEv::InvMany(l) => l.contains(&"A"),
+        _ => false,
+    };
+    // what a yielded item reports, the fake service answering a refetch with its current state
+    let mut report = |item: zbus::proxy::PropertyChanged<'static, u32>, sched: &mut Sched, sch: &mut Sch, bus: &mut FakeBus, a: u32, b: u32, unc: u32| -> Result<u32, String> {
+        let out: Arc<Mutex<Option<zbus::Result<u32>>>> = Default::default();
+        let o2 = out.clone();
+        let t = sched.spawn("report", async move {
+            let r = item.get().await;
+            *o2.lock().unwrap() = Some(r);
+        });
+        let oc = sched.run(&mut || sch.next(), 300_000, &mut |s| {
+            for i in bus.peer.pump() {
+                let m = bus.peer.out[i].clone();
+                if m.mtype != msg::T_CALL {
+                    continue;
+                }
+                match m.get_str(msg::F_MEMBER) {
+                    Some("Get") => {
+                        let v = match m.body.get(1) {
+                            Some(RVal::S(s)) if s == "A" => a,
+                            Some(RVal::S(s)) if s == "B" => b,
+                            _ => unc,
+                        };
+                        let r = bus.peer.method_return(&m, vec![RVal::V(Box::new((RSig::U, RVal::U(v))))], Some(":1.7"));
+                        bus.peer.send(&r);
+                    }
+                    _ => {
+                        let r = bus.peer.method_return(&m, vec![], Some(BUS));
+                        bus.peer.send(&r);
+                    }
+                }
+            }
+            s.done(t)
+        });
+        if oc != Outcome::Goal {
+            return Err(format!("reading what the change stream's item reports does not complete ({oc:?})"));
+        }
+        let r = out.lock().unwrap().take();
+        match r {
+            Some(Ok(v)) => Ok(v),
+            Some(Err(e)) => Err(format!("the item's get() failed: {e}")),
+            None => Err("harness: no result".into()),
+        }
+    };
+    let poll_once = |st: &mut zbus::proxy::PropertyStream<'static, u32>| -> Option<zbus::proxy::PropertyChanged<'static, u32>> {
+        let mut cx = std::task::Context::from_waker(std::task::Waker::noop());
+        match futures_core::Stream::poll_next(std::pin::Pin::new(st), &mut cx) {
+            std::task::Poll::Ready(x) => x,
+            std::task::Poll::Pending => None,
+        }
+    };
+    for k in 0..nstreams {
+        if k == 1 && poll_first_before_second {
+            // (the first stream has yielded and listens again: it is the older listener when the
+            // second one is created)
+            while let Some(item) = poll_once(&mut streams[0]) {
+                let v = report(item, &mut sched, &mut sch, &mut bus, a, b, unc).map_err(Failure::new)?;
+                if v != a {
+                    return Err(Failure::new(format!("a property change stream reports A={v}, the latest value is {a}; {}", describe())));
+                }
+            }
+        }
+        let px = proxy.clone();
+        let Some(mut st) = block_on_simple(async move { px.receive_property_changed::<u32>("A").await }, 10_000) else { return Err(Failure::new("harness: creating a property stream does not complete")) };
+        if expect_a.is_some() {
+            match poll_once(&mut st) {
+                Some(item) => {
+                    let v = report(item, &mut sched, &mut sch, &mut bus, a, b, unc).map_err(Failure::new)?;
+                    if v != a {
+                        return Err(Failure::new(format!("a new property change stream first reports A={v}, the current value is {a}; {}", describe())));
+                    }
+                    stream_notes.push(format!("stream {k} first yielded A={v}"));
+                }
+                None => {
+                    return Err(Failure::keyed(
+                        if k == 0 { "first-stream-does-not-yield-current-value" } else { "later-stream-does-not-yield-current-value" },
+                        format!("property change stream {k} for A, created while the cache holds A={:?}, does not yield the current value first (streams for A before it: {k}, the first of them polled again before: {}); {}", expect_a, k == 1 && poll_first_before_second, describe()),
+                    ));
+                }
+            }
+        }
+        streams.push(st);
+    }
+    // drain whatever else is ready now (allowed), then the further signals
+    for st in streams.iter_mut() {
+        while let Some(item) = poll_once(st) {
+            let v = report(item, &mut sched, &mut sch, &mut bus, a, b, unc).map_err(Failure::new)?;
+            if v != a {
+                return Err(Failure::new(format!("a property change stream reports A={v}, the latest value is {a}; {}", describe())));
+            }
+        }
+    }
+    let mut touched = false;
+    for ev in &more {
+        apply_server(ev, &mut a, &mut b, &mut unc);
+        emit(&mut bus, ev);
+        touched |= touches_a(ev);
+    }
+    settle_raw(&mut sched, &mut sch, &mut bus);
+    for (k, st) in streams.iter_mut().enumerate() {
+        let mut yielded = 0;
+        while let Some(item) = poll_once(st) {
+            yielded += 1;
+            let v = report(item, &mut sched, &mut sch, &mut bus, a, b, unc).map_err(Failure::new)?;
+            if v != a {
+                return Err(Failure::new(format!("property change stream {k} reports A={v} after the further signals {more:?}, the latest value is {a}; {}", describe())));
+            }
+            if yielded > 8 {
+                return Err(Failure::new(format!("property change stream {k} keeps yielding without any change ({yielded} items at rest); further signals {more:?}; {}", describe())));
+            }
+        }
+        if touched && yielded == 0 {
+            return Err(Failure::new(format!("property change stream {k} for A yields nothing although signals touching A were received since it last yielded: {more:?}; {}", describe())));
+        }
+        stream_notes.push(format!("stream {k}: {yielded} item(s) after {more:?}"));
+    }
+    obs.label(if touched { "change-stream:signals-touching-the-property" } else { "change-stream:no-touching-signal" });
+    if nstreams == 2 {
+        obs.label("change-stream:two-streams-for-one-property");
+    }
     let both_sides = pre.iter().any(|e| matches!(e, PEv::Changed("A" | "B", _))) && post.iter().any(|e| matches!(e, PEv::Changed("A" | "B", _) | PEv::Invalidated(_)));
     obs.label(if split_after_reply { "post-signals-later" } else { "post-signals-with-reply" });
     if both_sides {
